@@ -952,3 +952,32 @@ def diverging_calls(fn, pat):
         if (r.search(c) or r.search(d)) and t.get("tgt") is None and not fn.blocks[bi]["cl"]:
             out.append(bi)
     return out
+
+
+def reachable_without_edges(fn, goal_blocks, cut_edges, start=(0,), unwind=False):
+    """Witness path start -> goal that takes none of cut_edges (None if every path must take one of them)."""
+    return fn.path(list(start), goal_blocks, avoid_edges=set(cut_edges), unwind=unwind)
+
+
+def self_field_assign_blocks(fn, adt_path, include_mut_borrows=False):
+    """{field: [blocks]} for assignments whose place goes through a first-level field of adt_path (any depth below it)."""
+    out = defaultdict(list)
+    for bi, b in enumerate(fn.blocks):
+        if b["cl"]:
+            continue
+        for st in b["st"]:
+            if st[0] != "a":
+                continue
+            for (adt, var, fld) in field_steps(st[1]):
+                if adt == adt_path:
+                    out[fld].append(bi)
+            if include_mut_borrows and st[2]["r"] == "ref" and st[2]["bk"] in ("mut", "two"):
+                for (adt, var, fld) in field_steps(st[2]["p"]):
+                    if adt == adt_path:
+                        out[fld].append(bi)
+        t = b["t"]
+        if t["t"] == "call":
+            for (adt, var, fld) in field_steps(t["dest"]):
+                if adt == adt_path:
+                    out[fld].append(bi)
+    return out
